@@ -32,5 +32,7 @@ E1Programs(k) ==
       rs \in {x \in ({{r} : r \in SR} \cup {{r1, r2} : r1 \in SR, r2 \in SR}) : Stratifiable(x)},
       e \in E1Edbs}
 
+\* the same programs under small created-fact limits (LimitTrip enabled)
+ProgramsLimit == {[p EXCEPT !.limit = l] : p \in E1Programs(1) \cup {LostJoin, TwoCounts, RecAgg}, l \in {1, 3}}
 ProgramsSmall == E1Programs(1) \cup {LostJoin, TwoCounts, RecAgg}
 =============================================================================
